@@ -255,9 +255,10 @@ Proof.
   destruct (IH s1 s' G F1 H) as [A B]. split; [exact A|lia].
 Qed.
 
-(* ---- what is false of the code as it is -------------------------------------------------------------- *)
-Definition d_keystore := desc_of CKeystore.
-Definition d_rtrefresh := desc_of CRtRefresh.
+(* ---- what was false of the select-guarded Close and of unguarded registration ---------------------------- *)
+(* the protocols in use before the repairs: what was false of them *)
+Definition d_keystore := desc_keystore_select.
+Definition d_rtrefresh := desc_rtrefresh_unguarded.
 
 (* keystore: a second Close that comes while the first is still waiting for the worker returns at once *)
 Definition ks_early_trace : list ev :=
@@ -551,7 +552,7 @@ Proof.
 Qed.
 
 (* ---- constructors ------------------------------------------------------------------------------------------ *)
-Definition clean_comps : list comp := [CDht; CDual; CProvMgr; CValueStore; CRtRefresh; CProvider; CBuffered; CKeystore; CResettable].
+Definition clean_comps : list comp := [CDht; CDual; CFullRT; CProvMgr; CValueStore; CRtRefresh; CProvider; CBuffered; CProvDual; CKeystore; CResettable].
 Lemma ctor_clean_b : forallb ctor_clean clean_comps = true.
 Proof. vm_compute. reflexivity. Qed.
 
@@ -563,16 +564,8 @@ Proof.
   apply andb_true_iff in B. destruct B as [B1 B2]. apply negb_true_iff in B1. split; [exact B1|]. destruct left; [reflexivity|discriminate].
 Qed.
 
-(* provider/dual.New: the second provider.New failing leaves the owned keystore and the first provider running *)
-Lemma provdual_ctor_leaks :
-  In ("provider.New (WAN)", false, [RG GKsWorker; RG GConnProbe; RG GProvRun]) (leftovers [] (ctor_script CProvDual)) /\
-  In ("provider.New (LAN)", false, [RG GKsWorker]) (leftovers [] (ctor_script CProvDual)).
-Proof. split; vm_compute; tauto. Qed.
-
-(* fullrt.NewFullRT without a BootstrapPeers option: panics with the subscription and the provider manager's GC running *)
-Lemma fullrt_ctor_panics :
-  In ("dhtcfg.BootstrapPeers is nil (no BootstrapPeers option)", true, [RSub "fullrt"; RG GPmGc]) (leftovers [] (ctor_script CFullRT)).
-Proof. vm_compute. tauto. Qed.
+Lemma clean_comps_complete : forall c, In c clean_comps.
+Proof. destruct c; simpl; tauto. Qed.
 
 (* ---- the ResetCids start handshake ----------------------------------------------------------------------------- *)
 (* while the worker handles or answers opStart the caller is listening, and an exited worker was asked to *)
@@ -639,25 +632,39 @@ Proof.
   intros evs s'. exact (no_add_after_close d evs s s' G F).
 Qed.
 
-Lemma p_ctor_refuted :
-  (exists name left, In (name, false, left) (leftovers [] (ctor_script CProvDual)) /\ left <> []) /\
-  (exists name left, In (name, true, left) (leftovers [] (ctor_script CFullRT)) /\ left <> []).
-Proof.
-  split.
-  - exists "provider.New (WAN)", [RG GKsWorker; RG GConnProbe; RG GProvRun]. split; [exact (proj1 provdual_ctor_leaks)|discriminate].
-  - exists "dhtcfg.BootstrapPeers is nil (no BootstrapPeers option)", [RSub "fullrt"; RG GPmGc]. split; [exact fullrt_ctor_panics|discriminate].
-Qed.
+Lemma p_ctor_error_clean c name p left :
+  In (name, p, left) (leftovers [] (ctor_script c)) -> p = false /\ left = [].
+Proof. exact (ctor_error_clean c name p left (clean_comps_complete c)). Qed.
+
+(* every component but the value store (StartGC is not ordered with Close) uses a guarded registration and a
+   body that is not select-guarded *)
+Lemma p_components_guarded c : c <> CValueStore -> d_guard (desc_of c) <> GuardNone /\ d_once (desc_of c) <> OnceChanSelect.
+Proof. destruct c; intro N; try (split; discriminate). congruence. Qed.
+
+Lemma p_close_waits_comp c evs s t :
+  c <> CValueStore -> run (desc_of c) init evs = Some s -> closers s t = CReturned -> pre s = 0 /\ post s = 0.
+Proof. intro N. destruct (p_components_guarded c N) as [G O]. exact (p_close_waits (desc_of c) evs s t G O). Qed.
+
+Lemma p_no_panic_comp c evs s :
+  c <> CValueStore -> run (desc_of c) init evs = Some s -> panicked s = false /\ forall t, closers s t <> CPanicked.
+Proof. intro N. destruct (p_components_guarded c N) as [G O]. exact (p_no_panic (desc_of c) evs s G O). Qed.
+
+Lemma p_no_add_provider_rtrefresh c s :
+  c = CProvider \/ c = CRtRefresh -> flag s = true ->
+  step (desc_of c) s ESpawn = Some s /\
+  forall evs s', run (desc_of c) s evs = Some s' -> flag s' = true /\ pre s' + post s' <= pre s + post s.
+Proof. intros [-> | ->] F; apply p_no_add_after_close; auto. Qed.
 
 Lemma p_select_refuted :
-  (exists evs s, run (desc_of CKeystore) init evs = Some s /\ closers s 1 = CReturned /\ pre s = 1) /\
-  (exists evs s, run (desc_of CKeystore) init evs = Some s /\ panicked s = true).
+  (exists evs s, run desc_keystore_select init evs = Some s /\ closers s 1 = CReturned /\ pre s = 1) /\
+  (exists evs s, run desc_keystore_select init evs = Some s /\ panicked s = true).
 Proof.
   split; [exists ks_early_trace; exact ks_early|exists ks_double_trace; exact ks_double].
 Qed.
 
 Lemma p_unguarded_refuted :
-  (exists evs s, run (desc_of CRtRefresh) init evs = Some s /\ panicked s = true /\ closers s 0 = CPanicked) /\
-  (exists evs s, run (desc_of CRtRefresh) init evs = Some s /\ closers s 0 = CReturned /\ post s = 1).
+  (exists evs s, run desc_rtrefresh_unguarded init evs = Some s /\ panicked s = true /\ closers s 0 = CPanicked) /\
+  (exists evs s, run desc_rtrefresh_unguarded init evs = Some s /\ closers s 0 = CReturned /\ post s = 1).
 Proof.
   split; [exists rt_panic_trace; exact rt_panic|exists rt_post_trace; exact rt_post].
 Qed.
